@@ -44,3 +44,19 @@ reg('C04', [('verus', 'xorshift')],
     level='proof', trusted_base=TB_COMMON + TB_RC + ['T4 Wrapping shim: local stand-in for core::num::Wrapping with verified operator impls (same operator semantics assumed; Kani cross-check)'],
     explanation='next_u32 carries `(x,y,z,w)\' == xor128_next(x,y,z,w)` and `r == new w`; from_seed carries the LE-word / 0x0BAD5EED postconditions',
     assumptions=['stream positions follow from the one-step contract by induction'])
+TB_JIT = [
+    'T10 the timer F: Fn() -> u64 is total (timer.requires(()) is carried as the type invariant); its results are unconstrained u64s',
+    'T8 black_box (unsafe read_volatile) is the identity',
+    'T4 shims: leading_zeros (D14), to_le_bytes; T3 i32/i64::unsigned_abs',
+    'T5 relational stand-in for rand_core::RngCore; rand_core fill_bytes_via_next verified against it',
+]
+reg('C12', [('verus', 'jitter')], level='proof', trusted_base=TB_COMMON + TB_JIT,
+    explanation='every function of the collector carries the Jitterentropy step as postcondition with the timer readings existentially quantified (deterministic function of the readings); gen_entropy == collect_ok',
+    assumptions=['number of timer readings: the postconditions quantify exactly the readings that can influence the state; the count itself is decided by Kani harnesses on the real code (thorough tier)'])
+reg('C13', [('verus', 'jitter')], level='proof', trusted_base=TB_COMMON + TB_JIT,
+    explanation='test_timer carries `exists log. tt_post(log, r)`: Ok(r) only if no failure condition holds on the probe log, 1<=r<=128 and r*bitlen(mean)>=128; Err(e) only if cond(e) holds')
+reg('C14', [('verus', 'xoshiro'), ('verus', 'xorshift'), ('verus', 'jitter')], level='proof', trusted_base=TB_COMMON + TB_RC + TB_JIT,
+    explanation='Verus built-in obligations (overflow, index, shift, division, callee preconditions incl. panics) in every function under contract; public functions require only the type invariant',
+    assumptions=['Debug/serde formatting are not claimed panic-free'])
+reg('C16', [('verus', 'jitter')], level='proof', trusted_base=TB_COMMON + TB_JIT,
+    explanation='next_u32/next_u64/fill_bytes/clone contracts over the pending-half flag; fill_bytes via the relational contract of rand_core fill_bytes_via_next')
